@@ -316,7 +316,7 @@ type FuncResult struct {
 
 func (v *Verifier) newRoot(fn *ssa.Function, ct *Contract, discover bool) (*Root, *Enc) {
 	r := &Root{g: v.g, v: v, fn: fn, ct: ct, init: map[string]string{}, stSort: map[string]string{}, writeLog: map[string]map[int]bool{},
-		modsets: map[int]map[string]bool{}, discover: discover, siteCnt: map[string]int{}, locals: map[string]bool{}}
+		modsets: map[int]map[string]bool{}, discover: discover, siteCnt: map[string]int{}, locals: map[string]bool{}, curBlock: -1}
 	r.fnShort = pkgShort(ct.Pkg) + "." + ct.shortName()
 	e := &Enc{r: r, fn: fn, ct: ct, vals: map[ssa.Value]string{}, tuples: map[ssa.Value][]string{}, locs: map[ssa.Value]*Loc{},
 		funcs: map[ssa.Value]string{}, reach: map[*ssa.BasicBlock]string{}, stOut: map[*ssa.BasicBlock]map[string]string{},
@@ -339,6 +339,18 @@ func (v *Verifier) VerifyFunc(ct *Contract) *FuncResult {
 	r1, e1 := v.newRoot(fn, ct, true)
 	v.setupEntry(r1, e1)
 	e1.encodeBody()
+	if r1.callsModAll {
+		// a callee with 'modifies *' changes every persistent state the function mentions anywhere: repeat the discovery with
+		// all state names known from the start, so that loops containing such a call get complete modsets
+		delete(closureTab, r1)
+		r0 := r1
+		r1, e1 = v.newRoot(fn, ct, true)
+		for k, s := range r0.stSort {
+			r1.stSort[k] = s
+		}
+		v.setupEntry(r1, e1)
+		e1.encodeBody()
+	}
 	modsets := map[int]map[string]bool{}
 	for _, li := range e1.loops {
 		ms := map[string]bool{}
@@ -410,6 +422,7 @@ func (v *Verifier) setupEntry(r *Root, e *Enc) {
 }
 
 func (v *Verifier) finish(r *Root, e *Enc) {
+	r.curBlock = -1
 	ct := e.ct
 	fn := e.fn
 	g := v.g
@@ -492,7 +505,11 @@ func (v *Verifier) finish(r *Root, e *Enc) {
 				e.st = rt.st
 				renv := &SpecEnv{e: e, vars: rvars, cur: rt.st, old: map[string]string{}, errCtx: ct.Key + " ensures", noLocals: true}
 				t := renv.boolExpr(en.E)
+				if e.depth == 0 {
+					r.curBlock = rt.blk // the obligation only depends on blocks that reach this return
+				}
 				r.addObl(&Obligation{Name: fmt.Sprintf("%s.ret%d", name, k+1), Kind: "ensures", Tags: en.Tags, Goal: fmt.Sprintf("(=> %s %s)", rt.reach, t), Src: en.Src + " [return at " + rt.pos + "]"})
+				r.curBlock = -1
 			}
 			e.st = final
 			continue
